@@ -52,9 +52,11 @@ func (f *fileEvent) OnEvent(progress *PackageProgress) {
 		str += fmt.Sprintf(" 文件传输中[%s] 进度[%d/%d] 偏移[%d]", curPack.FileName,
 			curPack.CurrentSize, curPack.FileSize, curPack.Offset)
 	case ProgressStageSupplementary:
-		curPack := extension.CurrentPackage
-		str += fmt.Sprintf(" 文件补传传输中[%s] 进度[%d/%d] 偏移[%d]", curPack.FileName,
-			curPack.CurrentSize, curPack.FileSize, curPack.Offset)
+		// 一个分片都没收到就上报0x1212的情况 还没有当前的包
+		if curPack := extension.CurrentPackage; curPack != nil {
+			str += fmt.Sprintf(" 文件补传传输中[%s] 进度[%d/%d] 偏移[%d]", curPack.FileName,
+				curPack.CurrentSize, curPack.FileSize, curPack.Offset)
+		}
 	case ProgressStageStreamDataComplete:
 		str += " 目前传输文件整体进度:\n"
 		for name, v := range progress.Record {
